@@ -553,8 +553,11 @@ class Array(Environment):
                 continue
 
             if tok == '@':
+                # The argument must be consumed even when there is no
+                # column yet to attach it to (@{} at the left edge)
+                between = tex.readArgument()
                 if output:
-                    output[-1].between = tex.readArgument()
+                    output[-1].between = between
                 continue
 
             if tok == '*':
